@@ -1667,9 +1667,16 @@ class CodeGenerator(NodeVisitor):
     def visit_Const(self, node: nodes.Const, frame: Frame) -> None:
         val = node.as_const(frame.eval_ctx)
         if isinstance(val, float):
-            self.write(str(val))
+            code = str(val)
         else:
-            self.write(repr(val))
+            code = repr(val)
+
+        # A negative number stays a single operand, for example when a
+        # folded constant is the base of a power.
+        if code.startswith("-"):
+            code = f"({code})"
+
+        self.write(code)
 
     def visit_TemplateData(self, node: nodes.TemplateData, frame: Frame) -> None:
         try:
